@@ -127,3 +127,22 @@ mut("c08-unknown-id-raises-keyerror-late", "C08", PROTO,
     "        if sequence in self._awaiting:\n            expected_id, schema, future = self._awaiting.pop(sequence)",
     "        if sequence in self._awaiting or (sequence - 1) % 256 in self._awaiting:\n            expected_id, schema, future = self._awaiting.pop(sequence if sequence in self._awaiting else (sequence - 1) % 256)")
 # (removing the empty-frame guard is behaviourally equivalent: the catch-all contains the IndexError)
+
+# ---- C06 -------------------------------------------------------------------------------
+mut("c06-seq-plus-2", "C06", PROTO, "            self._seq = (self._seq + 1) % 256", "            self._seq = (self._seq + 2) % 256", checks=["C06", "C07"])
+mut("c06-seq-mod-128", "C06", PROTO, "            self._seq = (self._seq + 1) % 256", "            self._seq = (self._seq + 1) % 128")
+mut("c06-keepalive-deprioritised", "C06", PROTO, "            \"nop\": 999,", "            \"nop\": -5,")
+mut("c06-send-commands-prioritised", "C06", PROTO, "            \"sendUnicast\": -1,", "            \"sendUnicast\": 1,")
+mut("c06-concurrency-2", "C06", PROTO, "MAX_COMMAND_CONCURRENCY = 1", "MAX_COMMAND_CONCURRENCY = 2")
+mut("c06-callbacks-fanned-out-twice", "C06", EZ,
+    "        for _callback_id, handler in self._callbacks.items():\n            try:\n                handler(*args)",
+    "        for _callback_id, handler in list(self._callbacks.items()) * 2:\n            try:\n                handler(*args)",
+    checks=["C06", "C07"])
+mut("c06-awaiting-not-popped", "C06", PROTO,
+    "            expected_id, schema, future = self._awaiting.pop(sequence)", "            expected_id, schema, future = self._awaiting[sequence]")
+mut("c06-timeout-outside-lock-release", "C06", PROTO,
+    "            await self._gw.send_data(data)\n\n            async with asyncio_timeout(EZSP_CMD_TIMEOUT):\n                return await future",
+    "            await self._gw.send_data(data)\n\n        async with asyncio_timeout(EZSP_CMD_TIMEOUT):\n            return await future")
+mut("c06-awaiting-keyed-by-next-seq", "C06", PROTO,
+    "            self._awaiting[self._seq] = (cmd_id, rx_schema, future)\n            self._seq = (self._seq + 1) % 256",
+    "            self._seq = (self._seq + 1) % 256\n            self._awaiting[self._seq] = (cmd_id, rx_schema, future)", checks=["C06", "C07"])
